@@ -181,3 +181,27 @@ extern "C" void h_params(void) {
   }
   verif_reach();
 }
+
+// C12.methods_agree: the two quantization entry points (kd-tree path: all points in order; sequential / mesh path: explicit
+// point id list) map the same coordinate to the same integer -- the decoded value must not depend on the encoding method
+extern "C" void h_methods_agree(void) {
+  int q = nondet_i32(); verif_assume(q >= 1 && q <= 30);
+  float mins[NCOMP], p0[NCOMP];
+  for (int c = 0; c < NCOMP; ++c) { mins[c] = nondet_float(); p0[c] = nondet_float(); }
+  float range = nondet_float();
+  AttributeQuantizationTransform t;
+  t.SetParameters(q, mins, NCOMP, range);
+  GeometryAttribute gf;
+  gf.Init(GeometryAttribute::POSITION, nullptr, NCOMP, DT_FLOAT32, false, 4 * NCOMP, 0);
+  PointAttribute src(gf); src.SetIdentityMapping(); src.Reset(1);
+  src.SetAttributeValue(AttributeValueIndex(0), p0);
+  std::unique_ptr<PointAttribute> pa = t.InitTransformedAttribute(src, 1);
+  std::unique_ptr<PointAttribute> pb = t.InitTransformedAttribute(src, 1);
+  std::vector<PointIndex> none, ids; ids.push_back(PointIndex(0));
+  t.TransformAttribute(src, none, pa.get());
+  t.TransformAttribute(src, ids, pb.get());
+  int32_t a[NCOMP], b[NCOMP];
+  pa->GetValue(AttributeValueIndex(0), a); pb->GetValue(AttributeValueIndex(0), b);
+  for (int c = 0; c < NCOMP; ++c) verif_assert(a[c] == b[c], "both quantization entry points produce the same integer for the same coordinate");
+  verif_reach();
+}
